@@ -55,7 +55,7 @@ static int io_write(char c) { (void)c; if (srnd() % 100 >= p_write) { write_refu
 static int io_read(char *c) { if (inpos >= inlen || srnd() % 100 < 20) return 0; *c = (char)input[inpos++]; return 1; }
 static struct cat_io_interface io = { .write = io_write, .read = io_read };
 
-static struct cat_command cmds[MAXP + 3]; static char names[MAXP + 3][8]; static uint8_t vdata[MAXP + 3]; static struct cat_variable vars[MAXP + 3];
+static struct cat_command cmds[MAXP + 4]; static char names[MAXP + 4][8]; static uint8_t vdata[MAXP + 4]; static struct cat_variable vars[MAXP + 4]; static uint8_t longdata[16];
 static cat_return_state ev_handler(const struct cat_command *cmd, uint8_t *d, size_t *n, size_t m)
 {
         (void)d; (void)n; (void)m;
@@ -148,12 +148,14 @@ int main(int argc, char **argv)
         cmds[MAXP].name = "+HOLD"; cmds[MAXP].run = hold_run;
         cmds[MAXP + 1].name = "+W"; cmds[MAXP + 1].write = wr_handler;
         cmds[MAXP + 2].name = "+HELP"; cmds[MAXP + 2].run = help_run;      /* the command list walks the whole table, one step per service call */
-        static struct cat_command_group g = { .cmd = cmds, .cmd_num = MAXP + 3 }; static struct cat_command_group *gp[] = { &g };
-        static uint8_t buf[128]; static struct cat_descriptor desc = { .cmd_group = gp, .cmd_group_num = 1, .buf = buf, .buf_size = sizeof buf };
+        cmds[MAXP + 3].name = "+LONG"; vars[MAXP + 3].type = CAT_VAR_BUF_HEX; vars[MAXP + 3].data = longdata; vars[MAXP + 3].data_size = sizeof longdata; cmds[MAXP + 3].var = &vars[MAXP + 3]; cmds[MAXP + 3].var_num = 1;      /* a response longer than the small event buffer of the odd seeds */
+        static struct cat_command_group g = { .cmd = cmds, .cmd_num = MAXP + 4 }; static struct cat_command_group *gp[] = { &g };
+        static uint8_t buf[128], ubuf[24]; static struct cat_descriptor desc = { .cmd_group = gp, .cmd_group_num = 1, .buf = buf, .buf_size = sizeof buf };
+        if (seed & 1) { desc.unsolicited_buf = ubuf; desc.unsolicited_buf_size = sizeof ubuf; }      /* odd seeds: a separate event buffer, much smaller than the command buffer (every event text of this table still fits) */
         /* command traffic for the service thread */
-        static const char *lines[] = { "AT+HOLD\n", "AT+W=abc\r\n", "AT+P0?\n", "AT+P1=?\n", "AT\n", "AT+NOPE\n", "AT+P2=5\n", "AT+HELP\n" };
+        static const char *lines[] = { "AT+HOLD\n", "AT+W=abc\r\n", "AT+P0?\n", "AT+P1=?\n", "AT\n", "AT+NOPE\n", "AT+P2=5\n", "AT+HELP\n", "AT+LONG?\r\n", "AT+LONG=00112233445566778899aabbccddeeff\n" };
         long nl = 40 + (long)(srnd() % 200);
-        for (long l = 0; l < nl; l++) { const char *s = lines[srnd() % 8]; size_t n = strlen(s); if (inlen + n < sizeof input) { memcpy(input + inlen, s, n); inlen += n; } }
+        for (long l = 0; l < nl; l++) { const char *s = lines[srnd() % 10]; size_t n = strlen(s); if (inlen + n < sizeof input) { memcpy(input + inlen, s, n); inlen += n; } }
         { pthread_mutexattr_t ma; pthread_mutexattr_init(&ma); pthread_mutexattr_settype(&ma, PTHREAD_MUTEX_ERRORCHECK); pthread_mutex_init(&mtx, &ma); }
         cat_init(&at, &desc, &io, &mutex);
         pthread_t th[MAXP], by; struct parg pa[MAXP];
